@@ -16,6 +16,7 @@ REGISTRY = {
     "C12": ("props_currents", "check_C12"),
     "C17": ("props_tariff", "check_C17"),
     "C15": ("props_eventgen", "check_C15"),
+    "C16": ("props_sites", "check_C16"),
 }
 
 
